@@ -20,11 +20,37 @@ package nfs
 //@   ensures [G3-blockbitmap] forall j uint64, k uint64 :: j < super.NBlockBitmap && k < 32768 ==> (dskbit(513 + j, k) <==> (j*32768 + k < n || j*32768 + k >= m)) @C15 @C04
 //@   ensures [G3-inodebitmap] forall k uint64 :: k < 32768 ==> (dskbit(super.BitmapInodeStart(), k) <==> k < 2) @C15 @C04
 //@   ensures [G3-frame] forall b uint64 :: (b < 513 || b >= super.InodeStart()) ==> dsk[b] == old(dsk)[b] @C15 @C01
-//@   modifies dsk
+//@   modifies dsk, dpending
 //@   loop 0 invariant bn <= n && len(blk) == 4096 && forall k uint64 :: k < 32768 ==> (bitset(blk, k) <==> k < bn)
 //@   loop 0 decreases n - bn
 //@   loop 1 invariant m%32768 <= bn && bn <= 32768 && len(blk1) == 4096 && forall k uint64 :: k < 32768 ==> (bitset(blk1, k) <==> ((m/32768 == 0 && k < n) || (m%32768 <= k && k < bn)))
 //@   loop 1 decreases 32768 - bn
+
+// C01-R4/K (mkfs ordering): the root inode is what marks a disk as
+// formatted, so it is written only when every bitmap write before it is
+// behind a barrier (K1), and makeFs returns with nothing pending (K2).
+// Start-up is single-threaded: the formatter owns the root inode (held[1]).
+//@ specfunc dle32(b uint64, o uint64) = uint32(dsk[b][o]) | uint32(dsk[b][o+1])<<8 | uint32(dsk[b][o+2])<<16 | uint32(dsk[b][o+3])<<24
+//@ spec makeFs
+//@   props C01 C04 C15
+//@   requires superInv(super) && super.Disk.tag != 0 && held[1]
+//@   requires [zerobitmaps] forall b uint64, i uint64 :: 513 <= b && b < 515 + dsksize/32768 && i < 4096 ==> dsk[b][i] == 0
+//@   panics_if !acceptedSize(dsksize)
+//@   allocates inode.Inode, []uint64, []uint8, marshal.Enc, cell:uint64, buf.Buf
+//@   modifies dsk, dpending, buf.Buf.dirty
+//@   ensures [K2-barriered] dpending == 0 @C01
+//@   ensures [K3-root] dle32(super.InodeStart(), 128) == 2 @C01 @C04
+//@   ensures [G3-blockbitmap] forall j uint64, k uint64 :: j < super.NBlockBitmap && k < 32768 ==> (dskbit(513 + j, k) <==> (j*32768 + k < super.DataStart() || j*32768 + k >= super.MaxBnum())) @C15 @C04
+//@   ensures [G3-inodebitmap] forall k uint64 :: k < 32768 ==> (dskbit(super.BitmapInodeStart(), k) <==> k < 2) @C15 @C04
+
+// C01-R4: the root inode that decides "format or not" is read through the
+// recovered log, never from the raw disk.
+//@ spec readRootInode
+//@   props C01 C10 C11
+//@   requires superInv(super) && log != nil && acceptedSize(dsksize)
+//@   requires [R4-recovered] recovered @C01
+//@   allocates buf.Buf, inode.Inode, []uint64, cell:uint64, marshal.Dec
+//@   ensures result != nil && result.Inum == 1
 
 // ---------------------------------------------------------------------
 // NFS handlers: every RPC is one transaction. Ghost typestate (lastst):
